@@ -198,6 +198,17 @@ def _quota_used(case, votes):
 
 
 def impl(case):
+    try:
+        with hard_guard():
+            return _impl(case)
+    except HarnessTimeout as e:
+        if case['op'] == 'psc_check':
+            return None
+        _CACHE[case_key(case)] = []
+        return {'result': {'err': 'CaseExceedsTimeBudget'}, 'quota': None, 'psc': None, '_msg': str(e), '_bad_draws': [], '_quotas': []}
+
+
+def _impl(case):
     key = case_key(case)
     if case['op'] == 'psc_check':
         votes = [(b, Fraction(w)) for b, w in case['votes']]
@@ -339,6 +350,9 @@ def oracle(case, obs):
                 out.append(('differs_from_exact_gregory_count', f'elected {sorted(res)}, the exact count gives {ref_desc}'))
         elif isinstance(res, dict) and res.get('err') == 'NotImplementedError' and ref is not None:
             out.append(('differs_from_exact_gregory_count', f'refused, the exact count elects {ref_desc}'))
+    if isinstance(res, dict) and budget_clause(res.get('err')):
+        out.append((budget_clause(res['err']), str(obs.get('_msg'))))
+        return out
     if isinstance(res, dict):
         e = res.get('err')
         if e == 'NotImplementedError':
